@@ -19,7 +19,7 @@ ASSUMPTIONS = ["an illegal scheduling request is refused when any exception is r
 
 
 def plan(tier):
-    n = 9000 if tier == "quick" else 300000
+    n = 9000 if tier == "quick" else 600000
     return {"cases": n, "shards": 12, "timeout": 900 if tier == "quick" else 5400, "min_nontrivial": 60,
             "min": {"trace_events_compared": 20000, "scheduling_requests_judged": 20000, "clock_writes_observed": 20000}}
 
